@@ -18,6 +18,7 @@
 //   file reports (counter only); return value of opn2_rt_noteOn; whether a note produces a key-on at all (blank instruments, full chip).
 // Out of scope (caller misuse): sizes larger than the real block, including negative `long` sizes.
 #include "vlib.hpp"
+#include <algorithm>
 
 static const char *harness_name() { return "c02_banks"; }
 typedef std::vector<uint8_t> Bytes;
@@ -984,6 +985,39 @@ static void stage_play(Case &c)
             what = "opni";
         }
         else { base_api_instrument(*ai, (unsigned)t.patch, false); extreme_api_instrument(r, *ai, what); desc = "opn2_setInstrument fields: " + what; }
+        // bank churn before the instrument is written (a third of the cases): banks that share a hash bucket are created and
+        // removed in varying orders, absent ones are looked up, and real-time creation runs into the end of the reserved capacity;
+        // every bank reference a successful call hands out is written through
+        if(r.chance(0.33))
+        {
+            const int lsb = (int)r.pick((const int[]){5, 9, 33}), par = (int)r.below(2);
+            OPN2_Instrument *ti = (OPN2_Instrument *)malloc(sizeof(OPN2_Instrument)); base_api_instrument(*ti, 3, false);
+            auto bank = [&](int msb, int flags) -> int
+            {
+                OPN2_BankId bid; bid.percussive = 0; bid.msb = (uint8_t)msb; bid.lsb = (uint8_t)lsb; OPN2_Bank bb; memset(&bb, 0, sizeof(bb)); int brc = -1;
+                TAPI("opn2_getBank", brc = opn2_getBank(d, &bid, flags, &bb));
+                if(brc == 0 && flags) { int src = -1; TAPI("opn2_setInstrument", src = opn2_setInstrument(d, &bb, (unsigned)r.below(128), ti)); (void)src; }
+                return brc;
+            };
+            auto drop = [&](int msb)
+            {
+                OPN2_BankId bid; bid.percussive = 0; bid.msb = (uint8_t)msb; bid.lsb = (uint8_t)lsb; OPN2_Bank bb; int brc = -1;
+                TAPI("opn2_getBank", brc = opn2_getBank(d, &bid, 0, &bb));
+                if(brc == 0) { TAPI("opn2_removeBank", brc = opn2_removeBank(d, &bb)); }
+            };
+            if(r.chance(0.5)) { int rr = 0; TAPI("opn2_reserveBanks", rr = opn2_reserveBanks(d, (unsigned)r.range(0, 6))); (void)rr; }
+            std::vector<int> live;
+            for(int step = 0, n = r.range(4, 14); step < n; step++)
+            {
+                int k = (int)r.below(10);
+                if(k < 4 || live.empty()) { int msb = 10 + par + 2 * (int)r.below(12); if(bank(msb, OPNMIDI_Bank_Create) == 0 && std::find(live.begin(), live.end(), msb) == live.end()) live.push_back(msb); }
+                else if(k < 7) { size_t j = r.chance(0.5) ? 0 : r.below((uint32_t)live.size()); drop(live[j]); live.erase(live.begin() + (long)j); }
+                else if(k < 9) (void)bank(10 + par + 2 * (int)r.below(12), 0);            // lookup, present or absent
+                else for(int q = 0; q < 9; q++) { int msb = 40 + par + 2 * q; if(bank(msb, OPNMIDI_Bank_CreateRt) != 0) break; if(std::find(live.begin(), live.end(), msb) == live.end()) live.push_back(msb); }
+            }
+            free(ti);
+            count("bank_churn_preludes");
+        }
         // destination banks: the loaded 0:0 banks, or freshly created ones selected through CC0/CC32
         OPN2_BankId id; id.percussive = 0; id.msb = 0; id.lsb = 0;
         bool fresh = r.chance(0.3);
